@@ -24,6 +24,8 @@ func init() {
 			"C11.R2 TABLE: separator tables vs self-delimiting kinds",
 			"C11.R3 TABLE: name delimiter set and printable range",
 			"C11.R5 real precision: 'f' notation with at least twelve fractional digits in both serialisers",
+			"C11.R6 TABLE (= C12.R2): names are written with '#' + exactly two hex digits per escaped byte and read back two digits at a time",
+			"C11.R7 shape: string and hex literals are serialised whole (no slice of, no branch on the length of the value in String/PDFString)",
 		},
 		Assumptions: []string{"ISO 32000-1 7.2.2 delimiter set: ( ) < > [ ] { } / %"},
 		Technique:   "type-switch and comparison-constant table extraction from SSA; implementor enumeration through go/types; sibling agreement between the two serialiser paths",
@@ -110,6 +112,10 @@ func runC11(c *Ctx) {
 	r.MinInst["C11.R1"] = 20
 	r.MinInst["C11.R2"] = 2
 	r.MinInst["C11.R3"] = 1
+	r.MinInst["C11.R6"] = 2
+	checkNameHexDigits(c, "C11.R6")
+	r.MinInst["C11.R7"] = 2
+	checkAtomicSerialisersWhole(c)
 	impls := objectImplementors(p)
 	if len(impls) < 8 {
 		r.Bad("C11.R1", "pkg/pdfcpu/types", "anchor", "", fmt.Sprintf("UNRESOLVED-ANCHOR: only %d implementors of types.Object found", len(impls)))
@@ -508,8 +514,14 @@ func runC12(c *Ctx) {
 	checkEscapeStateReset(c, "C12.R5")
 	r.MinInst["C12.R3"] = 5
 	checkByteExactCodecs(c)
+	checkNameHexDigits(c, "C12.R2")
+}
+
+// checkNameHexDigits: EncodeName writes '#' + exactly two hex digits per escaped byte, DecodeName consumes exactly two.
+func checkNameHexDigits(c *Ctx, rule string) {
+	p, r := c.P, c.R
 	if fn := p.Func("pkg/pdfcpu/types.EncodeName"); fn == nil {
-		r.Bad("C12.R2", "pkg/pdfcpu/types.EncodeName", "anchor", "", "UNRESOLVED-ANCHOR")
+		r.Bad(rule, "pkg/pdfcpu/types.EncodeName", "anchor", "", "UNRESOLVED-ANCHOR")
 	} else {
 		hash, twoDigit := false, false
 		why := "no two-digit hex rendering of the byte found"
@@ -537,13 +549,13 @@ func runC12(c *Ctx) {
 			}
 		})
 		if hash && twoDigit {
-			r.OK("C12.R2", FuncID(fn), "two-digit-hex", p.Pos(fn.Pos()), "'#' followed by encoding/hex (or %02x) of one byte", true)
+			r.OK(rule, FuncID(fn), "two-digit-hex", p.Pos(fn.Pos()), "'#' followed by encoding/hex (or %02x) of one byte", true)
 		} else {
-			r.Bad("C12.R2", FuncID(fn), "two-digit-hex", p.Pos(fn.Pos()), "EncodeName does not write '#' plus exactly two hex digits per escaped byte: "+why+" — DecodeName consumes two digits, so bytes 0x01..0x0F would not round-trip")
+			r.Bad(rule, FuncID(fn), "two-digit-hex", p.Pos(fn.Pos()), "EncodeName does not write '#' plus exactly two hex digits per escaped byte: "+why+" — DecodeName consumes two digits, so bytes 0x01..0x0F would not round-trip")
 		}
 	}
 	if fn := p.Func("pkg/pdfcpu/types.DecodeName"); fn == nil {
-		r.Bad("C12.R2", "pkg/pdfcpu/types.DecodeName", "anchor", "", "UNRESOLVED-ANCHOR")
+		r.Bad(rule, "pkg/pdfcpu/types.DecodeName", "anchor", "", "UNRESOLVED-ANCHOR")
 	} else {
 		sliceOK, advOK := false, false
 		eachInstr(fn, func(_ *ssa.BasicBlock, _ int, i ssa.Instruction) {
@@ -564,9 +576,9 @@ func runC12(c *Ctx) {
 			}
 		})
 		if sliceOK && advOK {
-			r.OK("C12.R2", FuncID(fn), "two-digits-consumed", p.Pos(fn.Pos()), "decodes s[i+1:i+3] and advances i by 2", true)
+			r.OK(rule, FuncID(fn), "two-digits-consumed", p.Pos(fn.Pos()), "decodes s[i+1:i+3] and advances i by 2", true)
 		} else {
-			r.Bad("C12.R2", FuncID(fn), "two-digits-consumed", p.Pos(fn.Pos()), fmt.Sprintf("DecodeName no longer consumes exactly two hex digits after '#' (slice i+1..i+3: %v, i += 2: %v)", sliceOK, advOK))
+			r.Bad(rule, FuncID(fn), "two-digits-consumed", p.Pos(fn.Pos()), fmt.Sprintf("DecodeName no longer consumes exactly two hex digits after '#' (slice i+1..i+3: %v, i += 2: %v)", sliceOK, advOK))
 		}
 	}
 }
@@ -999,4 +1011,87 @@ func checkNameEscapeDecision(c *Ctx, rule string) {
 		return
 	}
 	r.OK(rule, FuncID(fn), "escape decision", pos, "every path from needsHexSequence(ch) == true to the next byte or a return writes '#': the decision is a function of the byte alone", true)
+}
+
+
+// ---------------- C11.R7 (round 4 seed C11-H): a string object is written whole ----------------
+
+// checkAtomicSerialisersWhole: PDFString of a string literal / hex literal is its String(); what the writer emits is
+// therefore whatever String() returns. In the functions reachable inside pkg/pdfcpu/types from
+// StringLiteral.PDFString and HexLiteral.PDFString the receiver is never sliced and no branch depends on its
+// length: an abbreviated form ("first 1024 bytes…", meant for logs) would be what is written to the file.
+func checkAtomicSerialisersWhole(c *Ctx) {
+	p, r := c.P, c.R
+	cg := c.CG()
+	for _, fid := range []string{"pkg/pdfcpu/types.(StringLiteral).PDFString", "pkg/pdfcpu/types.(HexLiteral).PDFString"} {
+		root := p.Func(fid)
+		if root == nil {
+			r.Bad("C11.R7", fid, "anchor", "", "UNRESOLVED-ANCHOR")
+			continue
+		}
+		seen := map[*ssa.Function]bool{}
+		var fns []*ssa.Function
+		var visit func(fn *ssa.Function)
+		visit = func(fn *ssa.Function) {
+			if seen[fn] || fn.Pkg == nil || fn.Pkg.Pkg.Path() != modPath+"/pkg/pdfcpu/types" {
+				return
+			}
+			seen[fn] = true
+			fns = append(fns, fn)
+			for _, o := range cg.Out[fn] {
+				visit(o)
+			}
+		}
+		visit(root)
+		var bad []string
+		pos := root.Pos()
+		for _, fn := range fns {
+			if len(fn.Params) == 0 || fn.Signature.Recv() == nil {
+				continue
+			}
+			recv := fn.Params[0]
+			fromRecv := func(v ssa.Value) bool {
+				for _, l := range valueLeaves(v) {
+					for {
+						if cv, ok := l.(*ssa.Convert); ok {
+							l = cv.X
+							continue
+						}
+						if cv, ok := l.(*ssa.ChangeType); ok {
+							l = cv.X
+							continue
+						}
+						break
+					}
+					if l == ssa.Value(recv) {
+						return true
+					}
+				}
+				return false
+			}
+			eachInstr(fn, func(_ *ssa.BasicBlock, _ int, i ssa.Instruction) {
+				switch x := i.(type) {
+				case *ssa.Slice:
+					if fromRecv(x.X) && (x.Low != nil || x.High != nil) {
+						bad = append(bad, fn.Name()+" slices the value")
+						pos = x.Pos()
+					}
+				case *ssa.If:
+					if bo, ok := x.Cond.(*ssa.BinOp); ok {
+						for _, side := range []ssa.Value{bo.X, bo.Y} {
+							if la := lenArgOf(side); la != nil && fromRecv(la) {
+								bad = append(bad, fn.Name()+" branches on the value's length")
+								pos = bo.Pos()
+							}
+						}
+					}
+				}
+			})
+		}
+		if len(bad) > 0 {
+			r.Bad("C11.R7", fid, "writes the whole value", p.Pos(pos), strings.Join(bad, "; ")+": PDFString returns what String returns, so a shortened or length-dependent rendering is what the writer emits — the string read back is not the string that was written")
+		} else {
+			r.OK("C11.R7", fid, "writes the whole value", p.Pos(root.Pos()), fmt.Sprintf("%d functions reachable in pkg/pdfcpu/types: the receiver is not sliced and no branch depends on its length", len(fns)), true)
+		}
+	}
 }
